@@ -13,7 +13,8 @@ import sys
 import time
 
 V = "/verif"
-WT = "/tmp/uxverif-regress-wt"
+SHARD = os.environ.get("REGRESS_SHARD", "")  # several of these side by side: one worktree/scratch/output each
+WT = "/tmp/uxverif-regress-wt" + SHARD
 PY = "/venv/bin/python"
 
 
@@ -26,6 +27,19 @@ def main():
     only = None
     seed = "0"
     a = sys.argv[1:]
+    if "--merge" in a:
+        out = os.path.join(V, "seeded", "REGRESSION.json")
+        prev = json.load(open(out))
+        for f in a[a.index("--merge") + 1 :]:
+            part = json.load(open(f))
+            prev["results"].update(part["results"])
+            prev["repo_head"] = part["repo_head"]
+        prev["n"] = len(prev["results"])
+        prev["caught"] = sum(1 for r in prev["results"].values() if r.get("caught"))
+        prev["out_of_reach"] = sum(1 for r in prev["results"].values() if r.get("status") == "out-of-reach")
+        json.dump(prev, open(out, "w"), indent=1)
+        print(f"{prev['caught']} of {prev['n']} caught, {prev['out_of_reach']} out of reach")
+        return
     if "--only" in a:
         only = a[a.index("--only") + 1]
     if "--seed" in a:
@@ -34,7 +48,7 @@ def main():
     rc, out = sh(["git", "-C", "/repo", "worktree", "add", "--detach", WT, "HEAD"])
     assert rc == 0, out
     results = {}
-    scratch = "/tmp/uxverif-regress-out"
+    scratch = "/tmp/uxverif-regress-out" + SHARD
     os.makedirs(scratch, exist_ok=True)
     try:
         for mid in sorted(os.listdir(os.path.join(V, "seeded"))):
@@ -76,7 +90,7 @@ def main():
                 results[mid] = {"property": prop, "status": "patch-does-not-apply", "detail": out[-300:]}
                 print(mid, "PATCH DOES NOT APPLY")
                 continue
-            env = dict(os.environ, VERIF_REPO=WT, PYTHONPATH=WT, VERIF_SEED=seed, VERIF_EVIDENCE_DIR=scratch, VERIF_REPLAY_DIR=scratch, VERIF_SCRATCH="/tmp/uxverif-regress-scratch")
+            env = dict(os.environ, VERIF_REPO=WT, PYTHONPATH=WT, VERIF_SEED=seed, VERIF_EVIDENCE_DIR=scratch, VERIF_REPLAY_DIR=scratch, VERIF_SCRATCH="/tmp/uxverif-regress-scratch" + SHARD)
             t0 = time.time()
             rc, out = sh([PY, os.path.join(V, "check.py"), "--property", prop, "--tier", "quick"], env=env, cwd=V)
             lines = [ln for ln in out.splitlines() if ln.startswith("violation:")]
@@ -86,10 +100,15 @@ def main():
     finally:
         sh(["git", "-C", "/repo", "worktree", "remove", "--force", WT])
         shutil.rmtree(scratch, ignore_errors=True)
-        shutil.rmtree("/tmp/uxverif-regress-scratch", ignore_errors=True)
+        shutil.rmtree("/tmp/uxverif-regress-scratch" + SHARD, ignore_errors=True)
     head = sh(["git", "-C", "/repo", "log", "--format=%h", "-1"])[1].strip()
     summary = {"repo_head": head, "seed": int(seed), "n": len(results), "caught": sum(1 for r in results.values() if r.get("caught")), "out_of_reach": sum(1 for r in results.values() if r.get("status") == "out-of-reach"), "results": results}
     out = os.path.join(V, "seeded", "REGRESSION.json")
+    if SHARD:
+        # a shard writes its own partial record; tools/regress_seeded.py --merge SHARDFILE... folds them in
+        json.dump(summary, open(f"/tmp/uxverif-regress-{SHARD}.json", "w"), indent=1)
+        print(f"shard {SHARD}: {summary['caught']} of {summary['n']} caught")
+        return
     if only and os.path.exists(out):
         # merge a partial re-run into the existing record
         prev = json.load(open(out))
